@@ -1,9 +1,12 @@
 package main
 
 import (
+	"errors"
 	"fmt"
+	"io"
 	"runtime"
 	"strconv"
+	"sync"
 	"sync/atomic"
 	"time"
 
@@ -225,6 +228,89 @@ func genC13(o *hx.Out, tier string) {
 			o.Add(class, verdict, "fanchk", "eq", joinInts(append(append([]int(nil), exp...), markerSerial)), joinInts(serials))
 		}
 		scn.CloseWithin(node, 10*time.Second)
+	}
+	// (d) the transport stalls a Write and then the read side fails: the channel must still close
+	// (with its cause), the others go on, Close() returns
+	nsf := 6
+	if tier == "thorough" {
+		nsf = 60
+	}
+	for sc := 0; sc < nsf; sc++ {
+		runtime.GOMAXPROCS([]int{1, 2, 16}[sc%3])
+		// the sick channel is a serial device (its transport is closed by the channel itself; a custom
+		// endpoint's transport is only closed by Node.Close), the healthy one a custom endpoint
+		var smu sync.Mutex
+		var devs []*scn.Pipe
+		gomavlib.VerifSetSerialOpenFunc(func(device string, baud int) (io.ReadWriteCloser, error) {
+			p := scn.NewPipe(device)
+			smu.Lock()
+			devs = append(devs, p)
+			smu.Unlock()
+			return p, nil
+		})
+		well := scn.NewPipe("well")
+		node, err := gomavlib.NewNode(gomavlib.NodeConf{Endpoints: []gomavlib.EndpointConf{
+			gomavlib.EndpointSerial{Device: "/dev/sick", Baud: 57600}, gomavlib.EndpointCustom{ReadWriteCloser: well}},
+			Dialect: d, OutVersion: gomavlib.V2, OutSystemID: 10, HeartbeatDisable: true})
+		if err != nil {
+			o.Add("stall then read failure", "INIT-FAILED", "expect", "ok", "-")
+			continue
+		}
+		col := scn.NewCollector(node, 0, false)
+		var sick *scn.Pipe
+		ok := col.Wait(func() bool {
+			smu.Lock()
+			defer smu.Unlock()
+			if len(devs) >= 2 {
+				sick = devs[1] // the first open is the probe of initialize
+			}
+			return sick != nil && len(col.Channels()) >= 2
+		})
+		if !ok {
+			o.Add("stall then read failure", "CHANNELS-NOT-OPEN", "expect", "ok", "-")
+			node.Close()
+			continue
+		}
+		pipes := []*scn.Pipe{sick, well}
+		chs := make([]*gomavlib.Channel, 2)
+		for _, ch := range col.Channels() {
+			if _, isSerial := ch.Endpoint().Conf().(gomavlib.EndpointSerial); isSerial {
+				chs[0] = ch
+			} else {
+				chs[1] = ch
+			}
+		}
+		kth := 1 + r.Intn(4)
+		for i := 0; i < kth-1; i++ {
+			node.WriteMessageTo(chs[0], serialMsg(i)) //nolint:errcheck
+		}
+		pipes[0].WaitWrites(func(ws [][]byte) bool { return len(ws) >= kth-1 })
+		pipes[0].BlockWrites()
+		node.WriteMessageTo(chs[0], serialMsg(100)) //nolint:errcheck
+		dl := time.Now().Add(2 * time.Second)
+		for atomic.LoadInt32(&pipes[0].BlockedIn) == 0 && time.Now().Before(dl) {
+			time.Sleep(200 * time.Microsecond)
+		}
+		pipes[0].FeedErr(errors.New("peer hung up"))
+		verdict := "ok"
+		if !col.Wait(func() bool {
+			for _, e := range col.Events(chs[0]) {
+				if _, ok := e.(*gomavlib.EventChannelClose); ok {
+					return true
+				}
+			}
+			return false
+		}) {
+			verdict = "NO-CLOSE-EVENT-FOR-THE-FAILED-CHANNEL (write stalled at call " + strconv.Itoa(kth) + ")"
+		}
+		node.WriteMessageAll(serialMsg(markerSerial)) //nolint:errcheck
+		if !waitMarker(pipes[1], drw) && verdict == "ok" {
+			verdict = "HEALTHY-CHANNEL-STOPPED"
+		}
+		if !scn.CloseWithin(node, 8*time.Second) {
+			verdict += " | CLOSE-DID-NOT-RETURN"
+		}
+		o.Add("stall then read failure", verdict, "expect", "ok", fmt.Sprintf("stall-then-fail k=%d", kth))
 	}
 	runtime.GOMAXPROCS(runtime.NumCPU())
 }
